@@ -77,6 +77,13 @@ def nd(ctx, obs, rule='ND'):
     for p in f2.params:
         obs.check(depends_on_param(r2.ret, p), rule, q2, f'the signal depends on {p}', f'`{p}` never reaches the returned signal', '',
                   where(prog, f2, f2.node))
+    # the random patterns are centred per condition (across channels) before they are orthonormalised: centred across conditions
+    # the rows are linearly dependent and the exact second moment cannot be imposed
+    from ..rules.peritem import per_item_statistics
+    from ..rules.axis import Contract
+    n = per_item_statistics(ctx, obs, q2, {q2: Contract({'G': ('C', 'C')})}, 'C', None, what='condition pattern')
+    if n == 0:
+        obs.unk('NORM', q2, 'the random patterns are centred per condition', 'no centring statistic recognised', where(prog, f2, f2.node))
 
 
 def same_signal(ctx, obs, rule='SAME'):
